@@ -9,7 +9,8 @@
 (* pessimistic font; no failed load is stored, ReadCache and lookup cache  *)
 (* keyed by absolute position and by index, every change of the image      *)
 (* filter forgets the selected image tables, cached_lookups is unbounded,  *)
-(* as the code does).  The "Init" event of a case carries the font         *)
+(* no working state outlives a call and nothing that depends on the tuple  *)
+(* is memoised, as the code does).  The "Init" event of a case carries the font         *)
 (* descriptor (family, damaged tables, layout of the lookups whose parsing *)
 (* is modelled, image tables).  Histories may be of any length: the        *)
 (* model's caches are unbounded maps.                                      *)
@@ -28,8 +29,8 @@ tvars == <<l, st>>
 
 TInit == l = 1 /\ st = InitState
 
-FontOf(e) == [fam |-> e.a.font.fam, damaged |-> e.a.font.damaged, lookups |-> e.a.font.lookups,
-              imgs |-> e.a.font.imgs, sub |-> e.a.font.sub]
+\* the descriptor as recorded (fam, damaged, lookups, imgs, sub and, for fonts of the var family, fv)
+FontOf(e) == e.a.font
 
 TNext ==
   /\ l <= Len(Rec)
